@@ -37,7 +37,8 @@ def run_one(d, budget, jobs, props):
                                    capture_output=True, text=True, timeout=1500)
                 line = [ln for ln in r.stdout.splitlines() if ln.startswith(("violation found", "HARNESS", "VIOLATION"))]
                 ok = [ln for ln in r.stdout.splitlines() if ln.startswith("OK ")]
-                out[p] = (r.returncode, time.time() - t0, (line[0] if line else (ok[0] if ok else r.stdout[-300:]))[:600])
+                msg = line[0] if line else (ok[0] if ok else (r.stdout[-300:] + " | stderr: " + r.stderr[-400:]))
+                out[p] = (r.returncode, time.time() - t0, msg[:700])
             except subprocess.TimeoutExpired:
                 out[p] = (3, time.time() - t0, "timeout")
             print(f"{os.path.basename(os.path.abspath(d))} {p} exit={out[p][0]} {out[p][1]:.0f}s {out[p][2][:200] if out[p][0] else ''}",
